@@ -178,6 +178,35 @@ func TextMenu() []spec.Batch {
 			dv(fld("a", 127, tok("x", 1, spec.Loc{Pos: 1, Start: 0, End: 1}), tok("q", 1))),
 		}},
 	}}
+	var tags []spec.Field
+	for i := 0; i < 7; i++ {
+		tags = append(tags, stored(fld("c", 1, tok(fmt.Sprintf("t%d", i%3), 1, loc(1+i, uint64(i)))), fmt.Sprintf("tag%d", i), uint64(i)))
+	}
+	gap3 := spec.Batch{Docs: []spec.Doc{
+		{ID: "g0", Fields: append([]spec.Field{
+			stored(fld("a", 1, tok("x", 1)), "first stored"),
+			fld("b", 1, tok("x", 1)), // indexed, not stored
+		}, tags...)},
+		{ID: "g1", Fields: []spec.Field{
+			stored(fld("a", 1, tok("y", 1)), "a-one"),
+			fld("b", 2, tok("x", 1), tok("y", 1)),
+			stored(fld("c", 1, tok("t0", 1)), "c-one", 5, 6),
+		}},
+		{ID: "g2", Fields: []spec.Field{stored(fld("c", 1, tok("t1", 1)), "only c")}},
+	}}
+	fz2 := spec.Batch{Docs: []spec.Doc{
+		{ID: "z0", Fields: []spec.Field{
+			dv(fld("a", 2, tok("w", 0, loc(1), loc(2)), tok("x", 1))),
+			dv(fld("b", 0)), // doc values requested, no token at all
+		}},
+		{ID: "z1", Fields: []spec.Field{
+			dv(fld("a", 1, tok("w", 0, loc(3)), tok("v", 0))),
+			dv(fld("b", 0)),
+		}},
+		{ID: "z2", Fields: []spec.Field{
+			dv(fld("a", 1, tok("w", 0))),
+		}},
+	}}
 	return []spec.Batch{
 		{}, // M0 empty batch
 		{Docs: []spec.Doc{{ID: "o0", Fields: []spec.Field{stored(fld("a", 1, tok("x", 1)), "ex")}}}}, // M1 single doc, 1-hit eligible
@@ -187,6 +216,8 @@ func TextMenu() []spec.Batch {
 		c1,   // M5 disjoint from M1, long array positions, empty term
 		ab3,  // M6 three docs, a document without fields, duplicate id across segments (p0)
 		vb2,  // M7 same field list as M2/M3; frequencies, lengths and location values at varint boundaries
+		gap3, // M8 three fields: stored / indexed-only / stored (a gap between stored fields); seven stored values with array positions in one document
+		fz2,  // M9 same field list as M2/M3: a frequency-0 term with locations in two documents of one chunk; a doc-value field without any token
 	}
 }
 
@@ -218,7 +249,26 @@ func BigMenu() []spec.Batch {
 		BatchCase{Fam: "boundary", N: 1030, Card: 1030, Opt: 2}.Batch(), // M1: x in all 1030 documents
 		BatchCase{Fam: "boundary", N: 600, Card: 600, Opt: 2}.Batch(),   // M2: x in all 600 documents
 		BatchCase{Fam: "boundary", N: 1024, Card: 1020, Opt: 2}.Batch(), // M3: 1024 documents, x in 1020
+		emptyTermBatch(700, "e"), // M4: 700 documents, every one with the empty term and a second field
+		emptyTermBatch(700, "f"), // M5: the same shape with other ids
 	}
+}
+
+func emptyTermBatch(n int, idPrefix string) spec.Batch {
+	var b spec.Batch
+	for d := 0; d < n; d++ {
+		fa := fld("a", 1+d%3, tok("x", 1))
+		if d == 0 {
+			// the LAST term of the preceding field is rare: its chunk size differs from the
+			// one the empty term (first term of field b, present everywhere) needs
+			fa.Toks = append(fa.Toks, tok("zz-rare", 1))
+		}
+		b.Docs = append(b.Docs, spec.Doc{ID: fmt.Sprintf("%s%04d", idPrefix, d), Fields: []spec.Field{
+			fa,
+			fld("b", 2, tok("", 1+d%2, loc(1+d%5)), tok(fmt.Sprintf("w%d", d%4), 1)),
+		}})
+	}
+	return b
 }
 
 func menuOf(name string) []spec.Batch {
